@@ -467,6 +467,9 @@ C01_UNITS = [
     spunit("cancel_co", end="cancel", **{"from": "co"}, yields=1, polls=2, q_waits=True),
     spunit("ret_custom_stack", end="ret", **{"from": "thread"}, yields=3, polls=2, q_waits=True, stack=0x4000),
     spunit("ret_noyield", end="ret", **{"from": "co"}, yields=0, polls=3, q_waits=True),
+    # the joiner (a coroutine) is cancelled while it waits: no early "done"
+    spunit("joiner_cancelled", end="ret", **{"from": "co"}, yields=3, polls=1, q_waits=False, victims=["s"]),
+    spunit("joiner_cancelled_target_parked", end="cancel", **{"from": "co"}, yields=1, polls=1, q_waits=False, victims=["s"]),
     manyunit("many_w1", 1), manyunit("many_w3", 3), manyunit("many_w8", 8, n=60),
 ] + _pick("C14", ("plain_thread", "child_panic"), "scoped_") + _pick("C16", ("select2_co",), "cq_")
 PROPS["C01"] = dict(assumptions=["the run queues hand every task to exactly one taker (C03, C04); AbsBlocker (C02)"], units=C01_UNITS)
